@@ -358,10 +358,20 @@ func propTable() map[string]*PropSpec {
 			q = append(q, c)
 			th = append(th, c)
 		}
+		// the messages embedded in a NEW_VIEW (its PREPREPARE, its votes) must be authentic as well: the C07 harness
+		// with proof-less votes is run under C08 too (every field of the NEW_VIEW symbolic)
+		for _, pf := range []int{0, 3} {
+			c := rc(fmt.Sprintf("C07_NewView/prefix=%d/votes=3/proofmask=0/prepares=0", pf), ".", "C07_NewView", map[string]int{"prefix": pf, "votes": 3, "proofmask": 0, "prepares": 0, "me": -1, "prepares2": -1})
+			c.MaxPaths = 400000
+			th = append(th, c)
+			if pf == 0 {
+				q = append(q, c)
+			}
+		}
 		t["C08"] = &PropSpec{ID: "C08", Quick: q, Thorough: th,
 			Assumptions: []string{"ideal signature registry; block commitment / proposal validation stubs (zzverifstub); committee of 4 with equal weights; node index symbolic (0..3)", "every adversarial field is symbolic: instance, header type tag, height, view (64 bit), hash byte, sender id byte (members and outsiders), signature validity bit + 8 arbitrary bytes, share validity, block presence/fields, all proof fields"},
 			Bounds:      []string{"one symbolic message per run, delivered through RawMessageFilter -> ConsensusMessagesFilter -> TermInCommittee in 6 prefix states (fresh, proposal accepted, prepared, timed out with/without lock, committed); plus one symbolic PREPREPARE/PREPARE/COMMIT received at height 1 followed by a sync to a symbolic later height (future-cache path); prepared proofs with <= 3 PREPARE senders; hashes and ids one byte long"},
-			Outside:     []string{"two or more adversarial messages in sequence (covered for specific shapes by C10/C01 harnesses); committees other than 4 equal-weight members; NEW_VIEW contents (C07)"},
+			Outside:     []string{"two or more adversarial messages in sequence (covered for specific shapes by C10/C01 harnesses); committees other than 4 equal-weight members; NEW_VIEW with prepared proofs (C07; the proof-less NEW_VIEW with every field symbolic is run here as well)"},
 		}
 	}
 	// ---------------- C07 ----------------
